@@ -168,6 +168,28 @@ def run_rewrites(ctx):
             ctx.violation('second-write-of-unchanged-specification-differs',
                           {'program': apistream.strip_private(prog), 'first': o1[0] if o1[0] == 'ok' else list(o1),
                            'second': o2[0] if o2[0] == 'ok' else list(o2)})
+    # indexed frames (index channel with or without units, uniform or not, user-given index values / units or none), written three
+    # times: every write gives the file of the first (a default added at the first write must not make room for another one at
+    # the next: e.g. units for a SPACING that only exists since the first write)
+    import impl as _impl
+    for k in range(24):
+        df = _impl.indexed_frame_spec(k)
+        outs3 = [_impl.outcome(lambda: _impl.write_real(df)) for _ in range(3)]
+        ctx.count('K-write-twice', key=('indexed', k))
+        ctx.stat('K-write-twice', 'indexed_first_' + (outs3[0][0] if outs3[0][0] == 'ok' else str(outs3[0][1])))
+        if outs3[0][0] == 'ok':
+            for n_, o_ in enumerate(outs3[1:], 2):
+                if o_[0] != 'ok' or o_[1]['file'] != outs3[0][1]['file']:
+                    a_, b_ = outs3[0][1]['file'], (o_[1]['file'] if o_[0] == 'ok' else b'')
+                    pos = next((j for j in range(min(len(a_), len(b_))) if a_[j] != b_[j]), min(len(a_), len(b_)))
+                    ctx.violation('second-write-of-unchanged-specification-differs',
+                                  {'specification': 'impl.indexed_frame_spec(%d)' % k, 'write': n_, 'outcome': o_[0] if o_[0] == 'ok' else list(o_),
+                                   'first_difference_at': pos, 'first': a_[max(0, pos - 16):pos + 32].hex(), 'this': b_[max(0, pos - 16):pos + 32].hex()})
+                    break
+        else:
+            if any(o_[0] == 'ok' for o_ in outs3[1:]):
+                ctx.violation('second-write-of-unchanged-specification-differs',
+                              {'specification': 'impl.indexed_frame_spec(%d)' % k, 'first': list(outs3[0]), 'later': [o_[0] for o_ in outs3[1:]]})
     # data handed to write() as ONE structured array / a dict of big-endian arrays, and used for two writes of the same DLISFile and for
     # an equal specification built afterwards: all three files identical (nothing is done to the caller's arrays that a later write sees)
     import numpy as np
